@@ -67,7 +67,7 @@ def metamorphic(ctx):
             B.append("scene %d %s ; xf %s" % (len(B), hdr, scene.xf_tokens(sx)))
             kinds.append("a non-invertible transform makes every drawing call draw nothing")
         elif k == 0:
-            p = scene.rand_path(rng, W, H, curves=0.0)
+            p = scene.rand_path(rng, W, H, curves=0.5)       # curved paths too: any device-space tolerance must not depend on T
             s = "solid " + gen.hexpx(gen.premul_pixel(rng)); o = scene.rand_opts(rng)
             A.append("scene %d %s ; xf %s ; fill %s %s %s" % (len(A), hdr, xt, p, s, o))
             B.append("scene %d %s ; xf %s ; tfill %s %s %s" % (len(B), hdr, xt, p, s, o))
